@@ -198,7 +198,7 @@ def run_job(job):
                     continue
                 if "inputs" in c:       # call(..., inputs=[...]) replaces the queue; otherwise what is left stays
                     tr.stdin.items = list(c["inputs"])
-                mro = []
+                mro, line = [], None
                 if not callable(g.get(c["fn"])):
                     res["calls"].append({"result": ["nofn"], "events": tr.take()})
                     continue
@@ -214,7 +214,8 @@ def run_job(job):
                 except BaseException as e:  # noqa
                     r = ["exc", type(e).__name__]
                     mro = [k.__name__ for k in type(e).__mro__]
-                res["calls"].append({"result": r, "events": tr.take(), "mro": mro})
+                    line = innermost_line(e, filename)      # None: raised by the call itself (e.g. wrong arity)
+                res["calls"].append({"result": r, "events": tr.take(), "mro": mro, "line": line})
     finally:
         sys.modules["__main__"] = saved_main
     return res
